@@ -465,9 +465,64 @@ func collectFieldStores(root ssa.Value, prefix string, out map[string][]ssa.Valu
 					}
 				}
 			}
+			// a struct built by a constructor helper (`Range: spanOnLine(line, from, to)`): its fields, with the
+			// helper's parameters replaced by the arguments of this call
+			if call, ok := u.Val.(*ssa.Call); ok && depth < 5 {
+				if sub, ok := constructorFields(call); ok {
+					for k, vs := range sub {
+						out[prefix+k] = append(out[prefix+k], vs...)
+					}
+					continue
+				}
+			}
 			out[prefix] = append(out[prefix], u.Val)
 		}
 	}
+}
+
+// constructorFields: call is a call of a module function that returns a struct it builds in one place (a single
+// return of a composite literal): the values stored into the literal's fields, parameters of the helper being
+// replaced by the call's arguments.
+func constructorFields(call *ssa.Call) (map[string][]ssa.Value, bool) {
+	h := call.Call.StaticCallee()
+	if h == nil || h.Blocks == nil || !inModule(h) || h.Signature.Results().Len() != 1 {
+		return nil, false
+	}
+	if _, isStruct := h.Signature.Results().At(0).Type().Underlying().(*types.Struct); !isStruct {
+		return nil, false
+	}
+	var lit *ssa.Alloc
+	n := 0
+	for _, b := range h.Blocks {
+		r, ok := b.Instrs[len(b.Instrs)-1].(*ssa.Return)
+		if !ok {
+			continue
+		}
+		n++
+		if ld, ok := r.Results[0].(*ssa.UnOp); ok && ld.Op == token.MUL {
+			lit, _ = ld.X.(*ssa.Alloc)
+		}
+	}
+	if n != 1 || lit == nil {
+		return nil, false
+	}
+	sub := map[string][]ssa.Value{}
+	collectFieldStores(lit, "", sub, 2)
+	if len(sub) == 0 {
+		return nil, false
+	}
+	for k, vs := range sub {
+		for i, v := range vs {
+			if p, ok := stripConv(v).(*ssa.Parameter); ok && p.Parent() == h {
+				for j, q := range h.Params {
+					if q == p && j < len(call.Call.Args) {
+						sub[k][i] = call.Call.Args[j]
+					}
+				}
+			}
+		}
+	}
+	return sub, true
 }
 
 type cbInvocation struct {
